@@ -120,4 +120,60 @@ CLAIMS.update({
         design="4/C08"),
 })
 
+_WORLD_NOTE = ("Trusts TLC, the definitional model spec/world/World.tla (validated on the model level: group axioms, "
+               "orbit partitions) and the Python projection onto the integer grid (integrality asserted).")
+
+CLAIMS.update({
+    "C19": dict(
+        technique="exact supercell descriptions (every sublattice of index 2..6, re-described by random unimodular "
+                  "matrices) constructed as Crystals; invariants decided by TLC against the definitional model "
+                  "(World/SuperW/Check_C19.tla)",
+        text="For each primitive world and each supercell description (shuffled atoms, jitter <= 1e-10, either "
+             "handedness, random orientation) TLC decides: construction succeeds, volume per atom and atoms per "
+             "primitive cell per species preserved, result primitive, right-handed, pairwise and Minkowski reduced, "
+             "group order equals that of the primitive description and the definitional order of the result.",
+        note=_WORLD_NOTE, design="4/C19"),
+    "C23": dict(
+        technique="every API route for conversions and symmetry actions evaluated on real objects and compared by TLC "
+                  "with the exact integer action of the definitional model (Geom.tla / Check_C23.tla)",
+        text="~40 routes (pos2cart/cart2pos/unit2cart/cart2unit, g_pos/g_vect/g_cart/g_direc/g_tensor, PairState.g, "
+             "ClusterSite.g, g*h, g.inv(), g+L) on catalogue and random worlds, plain / translated / product / inverse "
+             "operations, site, grid-point, direction, tensor and pair-state probes.",
+        note=_WORLD_NOTE, design="4/C23"),
+    "C27": dict(
+        technique="definitional supercell model (SuperW.tla): induced site permutations and Equivalent(a,b) decided by "
+                  "TLC; real Supercell.G and equivalencemap results checked clause by clause (Check_C27.tla)",
+        text="SC/FCC/HCP/B2/interstitial supercells (diagonal and non-diagonal, 0-2 solutes): every sup.G element is "
+             "the geometric permutation; for related (lmul/rmul/imul, stale caches), unrelated, defect-free and random "
+             "occupation pairs TLC decides soundness (g and mapping transform exactly) and completeness (None iff no "
+             "operation exists).",
+        note=_WORLD_NOTE, design="4/C27"),
+    "C36": dict(
+        technique="recorded ==, !=, hash and arithmetic tables of instance pools checked by TLC against the laws "
+                  "(EqLaws.tla) and the definitional pair-state algebra (Geom.tla / Check_C36.tla)",
+        text="Pools of GroupOp (incl. other crystals on the same lattice, translated copies), PairState, ClusterSite, "
+             "Cluster, vacancyThermoKinetics instances incl. near-equal floats (1e-14 equal / 1e-3 different, never "
+             "the tolerance boundary): equivalence relation, != negation, equal => equal hash, set semantics; "
+             "pair-state identities and commutation with symmetry operations.",
+        note=_WORLD_NOTE + " For vacancyThermoKinetics near-equal keys may compare either way (exact cache keys).",
+        design="4/C36"),
+    "C13": dict(
+        technique="VMCalc.tla histories restricted to {Lij, one SaveLoad, ClearCache} replayed with the original and "
+                  "the reloaded object in lockstep; bit patterns compared by TLC; HDF5/YAML value round trips",
+        text="Every history (depth 4-6) over 2 inputs with one HDF5 save/reload before or after cache population; "
+             "original (deep copy) and reloaded calculators receive the same later calls; all four tensors bit-identical "
+             "and tags equal. Round trips of GFCrystalcalc, StarSet, VectorStarSet, Taylor (HDF5) and Crystal, GroupOp, "
+             "PairState, ClusterSite, Cluster (YAML) on 7-14 worlds incl. crystals that went through reduce().",
+        note="Trusts TLC (string equality of IEEE-754 hex), h5py in-memory files, copy.deepcopy as 'the original object'.",
+        design="4/C13"),
+    "C14": dict(
+        technique="TLA+ object state machine VMCalc.tla; every path of its TLC state graph replayed on a real "
+                  "calculator; results compared by TLC (Check_Rel.tla) with a fresh calculator's F(range, input)",
+        text="All histories (depth 3 quick / 5 thorough) of Lij over a pool of inputs (one pair nearly identical), "
+             "in-place overwrites of returned arrays, cache clears, range regeneration and save/reload.",
+        note=_REL_NOTE + " Prefixes are shared through copy.deepcopy (preserves aliasing between returned arrays "
+                         "and internals).",
+        design="4/C14"),
+})
+
 NOT_YET ="check not built yet in this round (planned in DESIGN.md section 4)"
